@@ -49,6 +49,38 @@ fn forget_uids(uids: &[u64]) {
     if let Some(m) = g.as_mut() { for u in uids { m.remove(u); } }
 }
 
+static ZDROPS: AtomicUsize = AtomicUsize::new(0);
+static VDROPS: AtomicUsize = AtomicUsize::new(0);
+/// zero-sized seed with a destructor
+struct ZSeed;
+impl Drop for ZSeed { fn drop(&mut self) { ZDROPS.fetch_add(1, Ordering::SeqCst); } }
+/// value / seed with a destructor that is only counted
+struct Cnt(#[allow(dead_code)] u64);
+impl Drop for Cnt { fn drop(&mut self) { VDROPS.fetch_add(1, Ordering::SeqCst); } }
+
+fn shapes_probe() -> Vec<String> {
+    let mut bad = vec![];
+    let mut run = |what: &str, f: &dyn Fn(), want_z: usize, want_v: usize| {
+        ZDROPS.store(0, Ordering::SeqCst); VDROPS.store(0, Ordering::SeqCst);
+        f();
+        let (z, v) = (ZDROPS.load(Ordering::SeqCst), VDROPS.load(Ordering::SeqCst));
+        if (z, v) != (want_z, want_v) { bad.push(format!("{what}: zero-sized seeds dropped {z} time(s) (expected {want_z}), counted values dropped {v} time(s) (expected {want_v})")); }
+    };
+    // zero-sized seed with Drop, value with Drop
+    run("OnceInitCell<ZSeed, Cnt> never initialised", &|| { let c: OnceInitCell<ZSeed, Cnt> = OnceInitCell::new(ZSeed); drop(c); }, 1, 0);
+    run("OnceInitCell<ZSeed, Cnt> initialised", &|| { let c: OnceInitCell<ZSeed, Cnt> = OnceInitCell::new(ZSeed); let _ = c.get_or_init(|_| Cnt(1)); drop(c); }, 1, 1);
+    run("OnceInitCell<ZSeed, Cnt> failed initialiser", &|| { let c: OnceInitCell<ZSeed, Cnt> = OnceInitCell::new(ZSeed); let _ = c.get_or_try_init(|_| Err::<Cnt, ()>(())); drop(c); }, 1, 0);
+    // seed with Drop, value WITHOUT destructor
+    run("OnceInitCell<Cnt, u64> never initialised", &|| { let c: OnceInitCell<Cnt, u64> = OnceInitCell::new(Cnt(1)); drop(c); }, 0, 1);
+    run("OnceInitCell<Cnt, u64> initialised", &|| { let c: OnceInitCell<Cnt, u64> = OnceInitCell::new(Cnt(1)); let _ = c.get_or_init(|_| 7u64); drop(c); }, 0, 1);
+    run("OnceInitCell<Cnt, u64> failed initialiser", &|| { let c: OnceInitCell<Cnt, u64> = OnceInitCell::new(Cnt(1)); let _ = c.get_or_try_init(|_| Err::<u64, ()>(())); drop(c); }, 0, 1);
+    // seed WITHOUT destructor, value with Drop; with_value
+    run("OnceInitCell<u64, Cnt> initialised", &|| { let c: OnceInitCell<u64, Cnt> = OnceInitCell::new(3); let _ = c.get_or_init(|s| Cnt(*s)); drop(c); }, 0, 1);
+    run("OnceInitCell<u64, Cnt>::with_value", &|| { let c: OnceInitCell<u64, Cnt> = OnceInitCell::with_value(Cnt(9)); drop(c); }, 0, 1);
+    run("OnceInitCell<ZSeed, u64> initialised", &|| { let c: OnceInitCell<ZSeed, u64> = OnceInitCell::new(ZSeed); let _ = c.get_or_init(|_| 1u64); drop(c); }, 1, 0);
+    bad
+}
+
 trait SeedLike: Send + 'static {
     fn content(&mut self) -> &mut u64;
 }
@@ -346,6 +378,7 @@ impl Engine for CellEngine {
                 for k in KINDS { for a in ["o1", "e2", "p3", "O1", "P3"] { for b in ["g", "o4", "e5", "p6", "O4", "P6"] { l.push(format!("cell.overlap {} 7 {a} {b}", k.name())); } } }
                 for m in 0..MALFORMED.len() { l.push(format!("cell.malformed {m}")); }
             }
+            3 => { l.push("cell.shapes".into()); }
             _ => match idx % 4 {
                 0 | 3 => {
                     // sequential random life of a few cells
@@ -460,6 +493,16 @@ impl Engine for CellEngine {
                     let (sd, vd, panicked) = lv.drop_cell(rec, &format!("{} cell, cell.drop", kind.name()));
                     rec.op(line.clone(), format!("dropped seed_drops={sd} val_drops={vd} panicked={panicked} ub=false"));
                     rec.stat(format!("drop/{}{}", kind.name(), if vd > 0 { "/init" } else { "/uninit" }));
+                }
+                "cell.shapes" => {
+                    // seed / value types the dispatch on `needs_drop` must not get wrong: a ZERO-SIZED seed with a destructor, a value
+                    // type WITHOUT destructor over a seed with one (and the reverse), each: never initialised / initialised / failed
+                    // initialiser; every seed and every value is dropped exactly once over the life of the cell
+                    let bad = shapes_probe();
+                    rec.nontrivial = true;
+                    rec.stat("shapes");
+                    for b in &bad { rec.oracle_fail(format!("drop-ledger cell.shapes: {b}")); }
+                    rec.op("cell.shapes".to_string(), if bad.is_empty() { "exactly-once" } else { "wrong" });
                 }
                 "cell.malformed" => {
                     let m = MALFORMED[w[1].parse::<usize>().expect("index") % MALFORMED.len()];
